@@ -1,1 +1,199 @@
-/-! Property theorems for C13 (only property-level statements and non-vacuity examples live here). -/
+import SpoxModel.Lemmas.Types
+import SpoxModel.Generated.Dtypes
+/-!
+# C13 — types are canonical; compatibility and broadcasting are exact and sound
+
+The model (`Model/Types.lean`) is executed against the real `_subtype`, `Shape.__le__`,
+`Shape.broadcast`, `_to_onnx`, `_from_onnx` on every run (tie H); the element-type table
+(`Generated/Dtypes.lean`) is tabulated from the real constructor and conversion functions on every
+run (tie G), so the `decide` theorems below are re-proved against what the code does *now*.
+-/
+namespace C13
+open Types Generated.Dtypes
+
+/-- the element classes a `Tensor` can be constructed with (generated) -/
+def okElem (e : Nat) : Bool := elemClasses.contains e
+
+/-- A type a program can build: no bare `Type()` inside, element classes the constructor accepts. -/
+def WF (t : Ty) : Prop := t.anyFree = true ∧ t.allElems okElem = true
+
+/-! ## Element types (decided over the generated table) -/
+
+/-- Every spelling that is accepted at all is given the class that the *ONNX code* of the spelling
+    maps back to: the class is a function of the ONNX element type alone. -/
+theorem spelling_class_of_code :
+    ∀ s ∈ spellings, s.cls = s.code.bind table.ofCode := by decide +kernel
+
+/-- **Every accepted spelling of one ONNX element type yields equal element classes**
+    (and hence equal types: `Tensor.__eq__` compares `_elem_type` and `_shape`). -/
+theorem spelling_canonical (s₁ s₂ : Spelling) (h₁ : s₁ ∈ spellings) (h₂ : s₂ ∈ spellings)
+    (hc : s₁.code = s₂.code) : s₁.cls = s₂.cls := by
+  rw [spelling_class_of_code s₁ h₁, spelling_class_of_code s₂ h₂, hc]
+
+/-- Element classes survive the trip class → ONNX code → class. -/
+theorem elem_roundtrip :
+    ∀ e ∈ elemClasses, (table.toCode e).bind table.ofCode = some e := by decide +kernel
+
+/-- Codes survive the trip too, and every value of the ONNX enum is constructible. -/
+theorem code_roundtrip :
+    ∀ c ∈ onnxEnum, (table.ofCode c).bind table.toCode = some c := by decide +kernel
+
+/-- **Element types ONNX does not define are refused** (by the constructor and by the conversion),
+    and the defined ones are accepted with a code of the ONNX enum. -/
+theorem undefined_refused :
+    ∀ s ∈ spellings, s.defined = false → s.cls = none ∧ s.code = none := by decide +kernel
+
+theorem defined_accepted :
+    ∀ s ∈ spellings, s.defined = true →
+      s.cls.isSome = true ∧ (match s.code with | some c => onnxEnum.contains c | none => false) = true := by
+  decide +kernel
+
+/-- Codes outside the ONNX enum are refused by `_from_onnx`. -/
+theorem undefined_code_refused :
+    ∀ p ∈ codeClass, onnxEnum.contains p.1 = false → p.2 = none := by decide +kernel
+
+/-- `issubclass` between element classes is equality (no element class subclasses another). -/
+theorem subclass_is_eq :
+    ∀ e ∈ elemClasses, ∀ e' ∈ elemClasses, table.sub e e' = (e == e') := by decide +kernel
+
+theorem subIsEq : SubIsEq table okElem := by
+  intro e e' h h'
+  exact subclass_is_eq e (by simpa [okElem] using h) e' (by simpa [okElem] using h')
+
+theorem elemRoundtrip : ElemRoundtrip table okElem := by
+  intro e h
+  have := elem_roundtrip e (by simpa [okElem] using h)
+  cases hc : table.toCode e with
+  | none => simp [hc] at this
+  | some c => exact ⟨c, rfl, by simpa [hc] using this⟩
+
+/-! ## ONNX round trip -/
+
+/-- **Converting any type to its ONNX form and back is the identity** — all constructible types,
+    any nesting, any shape (any rank, constant / named / anonymous dimensions, unknown rank). -/
+theorem fromOnnx_toOnnx (t : Ty) (h : WF t) :
+    ∃ p, toOnnx table t = some p ∧ fromOnnx table p = some t :=
+  roundtrip_of table okElem elemRoundtrip t h.1 h.2
+
+/-! ## Compatibility -/
+
+/-- **`_subtype` holds exactly when the statement's compatibility holds** (same constructor and
+    element type; unknown rank or dimension matches anything). `b` may contain the `Type()` wildcard. -/
+theorem subtype_exact (a b : Ty) (ha : WF a) (hb : b.allElems okElem = true) :
+    subtype table a b = compat a b :=
+  subtype_eq_compat table okElem subIsEq a b ha.1 ha.2 hb
+
+/-- **Compatibility = the two types can describe a common runtime value.** -/
+theorem compat_iff_common_value (a b : Ty) :
+    compat a b = true ↔ ∃ v : RtVal, v.witness = true ∧ conforms v a ∧ conforms v b :=
+  ⟨fun h => ⟨wit a b, wit_spec a b h⟩, fun ⟨v, hw, ha, hb⟩ => common_value_compat v a b hw ha hb⟩
+
+/-- The two together: the judgement made at call boundaries is exact. -/
+theorem subtype_iff_common_value (a b : Ty) (ha : WF a) (hb : b.allElems okElem = true) :
+    subtype table a b = true ↔ ∃ v : RtVal, v.witness = true ∧ conforms v a ∧ conforms v b := by
+  rw [subtype_exact a b ha hb]; exact compat_iff_common_value a b
+
+/-! ## Broadcasting -/
+
+/-- **On known dimensions static broadcasting is numpy's rule.** -/
+theorem broadcast_known (a b : List Nat) :
+    broadcast (some (a.map .const)) (some (b.map .const))
+      = (npBroadcast a b).map (fun l => some (l.map Natural.const)) := by
+  simp only [broadcast, npBroadcast, List.length_map]
+  by_cases h : a.length > b.length
+  · have h1 : max a.length b.length - a.length = 0 := by omega
+    have h2 : max a.length b.length - b.length = a.length - b.length := by omega
+    simp only [h, if_true, h1, h2, List.replicate_zero, List.nil_append, List.length_map]
+    have hl : (List.replicate (a.length - b.length) 1 ++ b).length = a.length := by
+      simp only [List.length_append, List.length_replicate]; omega
+    have := bZip_known (List.replicate (a.length - b.length) 1 ++ b) a hl
+    simp only [List.map_append, List.map_replicate] at this
+    rw [this, npZip_comm]
+    cases npZip a (List.replicate (a.length - b.length) 1 ++ b) <;> simp
+  · have h1 : max a.length b.length - b.length = 0 := by omega
+    have h2 : max a.length b.length - a.length = b.length - a.length := by omega
+    simp only [h, if_false, h1, h2, List.replicate_zero, List.nil_append, List.length_map]
+    have hl : (List.replicate (b.length - a.length) 1 ++ a).length = b.length := by
+      simp only [List.length_append, List.length_replicate]; omega
+    have := bZip_known (List.replicate (b.length - a.length) 1 ++ a) b hl
+    simp only [List.map_append, List.map_replicate] at this
+    rw [this]
+    cases npZip (List.replicate (b.length - a.length) 1 ++ a) b <;> simp
+
+/-- **Static broadcasting never claims a dimension that conforming runtime values could
+    contradict**: whenever concrete shapes conform to the operand shapes and numpy broadcasts them,
+    numpy's result conforms to the shape spox reports. -/
+theorem broadcast_sound (a b c : Shape) (sa sb s : List Nat)
+    (h : broadcast a b = some c) (ha : confShape sa a) (hb : confShape sb b)
+    (hs : npBroadcast sa sb = some s) : confShape s c := by
+  cases a with
+  | none => simp [broadcast] at h; subst h; simp [confShape]
+  | some xa =>
+    cases b with
+    | none => simp [broadcast] at h; subst h; simp [confShape]
+    | some xb =>
+      simp only [confShape] at ha hb
+      have la := confDims_length sa xa ha
+      have lb := confDims_length sb xb hb
+      simp only [broadcast] at h
+      simp only [npBroadcast] at hs
+      by_cases hgt : xa.length > xb.length
+      · have h1 : max sa.length sb.length - sa.length = 0 := by omega
+        have h2 : max sa.length sb.length - sb.length = xa.length - xb.length := by omega
+        simp only [hgt, if_true, Option.map_eq_some_iff] at h
+        simp only [h1, h2, List.replicate_zero, List.nil_append] at hs
+        obtain ⟨zc, hz, rfl⟩ := h
+        rw [npZip_comm] at hs
+        exact bZip_sound _ _ _ _ zc s (confDims_pad _ sb xb hb) ha hz hs
+      · have h1 : max sa.length sb.length - sb.length = 0 := by omega
+        have h2 : max sa.length sb.length - sa.length = xb.length - xa.length := by omega
+        simp only [hgt, if_false, Option.map_eq_some_iff] at h
+        simp only [h1, h2, List.replicate_zero, List.nil_append] at hs
+        obtain ⟨zc, hz, rfl⟩ := h
+        exact bZip_sound _ _ _ _ zc s (confDims_pad _ sa xa ha) hb hz hs
+
+/-- **Static broadcasting raises only when no conforming values could broadcast.** -/
+theorem broadcast_raises_only_if_impossible (a b : Shape) (sa sb : List Nat)
+    (h : broadcast a b = none) (ha : confShape sa a) (hb : confShape sb b) :
+    npBroadcast sa sb = none := by
+  cases a with
+  | none => simp [broadcast] at h
+  | some xa =>
+    cases b with
+    | none => simp [broadcast] at h
+    | some xb =>
+      simp only [confShape] at ha hb
+      have la := confDims_length sa xa ha
+      have lb := confDims_length sb xb hb
+      simp only [broadcast] at h
+      simp only [npBroadcast]
+      by_cases hgt : xa.length > xb.length
+      · have h1 : max sa.length sb.length - sa.length = 0 := by omega
+        have h2 : max sa.length sb.length - sb.length = xa.length - xb.length := by omega
+        simp only [hgt, if_true, Option.map_eq_none_iff] at h
+        simp only [h1, h2, List.replicate_zero, List.nil_append]
+        rw [npZip_comm]
+        exact bZip_none _ _ _ _ (confDims_pad _ sb xb hb) ha h
+      · have h1 : max sa.length sb.length - sb.length = 0 := by omega
+        have h2 : max sa.length sb.length - sa.length = xb.length - xa.length := by omega
+        simp only [hgt, if_false, Option.map_eq_none_iff] at h
+        simp only [h1, h2, List.replicate_zero, List.nil_append]
+        exact bZip_none _ _ _ _ (confDims_pad _ sa xa ha) hb h
+
+/-- Unknown rank on either side gives unknown rank (which every runtime shape conforms to). -/
+theorem broadcast_unknown_rank (b : Shape) : broadcast none b = some none ∧ broadcast b none = some none := by
+  cases b <;> simp [broadcast]
+
+/-! ## Non-vacuity -/
+
+-- int64 (class of `Tensor(np.int64)`) has an inhabitant among the generated spellings
+example : ∃ s ∈ spellings, s.cls.isSome = true ∧ s.defined = true := by decide +kernel
+example : ∃ s ∈ spellings, s.defined = false := by decide +kernel
+example : broadcast (some [.const 2, .unk "N", .const 1]) (some [.const 3, .unk ""])
+    = some (some [.const 2, .const 3, .unk ""]) := by decide
+example : broadcast (some [.const 2]) (some [.const 3]) = none := by decide
+example : npBroadcast [2, 1, 3] [4, 1] = some [2, 4, 3] := by decide
+example : compat (.seq (.tensor 7 (some [.const 2]))) (.seq (.tensor 7 (some [.unk "N"]))) = true := by decide
+example : compat (.tensor 7 (some [.const 2])) (.tensor 7 (some [.const 3])) = false := by decide
+
+end C13
